@@ -19,7 +19,7 @@ Lemma installed_tables_pinned :
   installed_pkg_rows = expected_installed_rows /\
   installed_file_formats = ["%c"; "F:%s"; "M:%d:%d:%04o"; "R:%s"; "a:%d:%d:%04o"; "Z:%s"] /\
   installed_mode_mask = 511%Z /\ installed_dir_default_mode = 493%Z /\ installed_file_default_mode = 420%Z /\
-  installed_join_and_trailer = [s_nl +++ s_nl; s_nl] /\ installed_sets_scanner_buffer = false.
+  installed_join_and_trailer = [s_nl +++ s_nl; s_nl].
 Proof. vm_compute. repeat split. Qed.
 
 Lemma join_nl_unlines ls : ls <> [] -> join s_nl ls +++ s_nl +++ s_nl = unlines (ls ++ [""]).
